@@ -18,6 +18,7 @@ import (
 
 // Clause is one requires/ensures/invariant/axiom expression.
 type Clause struct {
+	Assumed bool
 	Tags  []string
 	Label string
 	Expr  ast.Expr
@@ -95,6 +96,8 @@ type PureFunc struct {
 	Params  []PureParam
 	Ret     types.Type
 	Body    ast.Expr // nil for uninterpreted functions
+	Heap    bool     // heap-dependent recursive function (hfunc): uninterpreted symbol over the read components, unfolded at use
+	Reads   []ast.Expr
 	Src     string
 }
 
@@ -107,7 +110,7 @@ type ContractTable struct {
 	Assumed []string // textual list of every trusted / iface / axiom / assume line (scan)
 }
 
-var kwRe = regexp.MustCompile(`^(func|trusted func|iface|pure func|ufunc|axiom|requires|ensures|modifies|loop|invariant|safety|let|letold|noinline|params)\b`)
+var kwRe = regexp.MustCompile(`^(func|trusted func|iface|pure func|hfunc|ufunc|axiom|requires|ensures|assumes|modifies|loop|invariant|safety|let|letold|noinline|params|lock)\b`)
 var tagRe = regexp.MustCompile(`^\[([A-Za-z0-9_,.\- ]+)\]\s*`)
 
 type rawLine struct {
@@ -241,6 +244,29 @@ func (p *Program) parseContractFile(pkg *packages.Package, file string) error {
 			ct.Axioms[pkg.PkgPath] = append(ct.Axioms[pkg.PkgPath], cl)
 			ct.Assumed = append(ct.Assumed, fmt.Sprintf("%s: axiom %s", st.pos, cl.Src))
 			cur, curLoop = nil, nil
+		case "lock":
+			if cur != nil {
+				cur.Lock = rest
+			}
+		case "hfunc":
+			pf, err := p.parsePure(pkg, rest, false)
+			if err != nil {
+				return fail("%v", err)
+			}
+			pf.Heap = true
+			ct.Pure[pkg.PkgPath+"::"+pf.Name] = pf
+			cur, curLoop = nil, nil
+		case "assumes":
+			if cur == nil {
+				return fail("assumes outside contract")
+			}
+			cl, err := parseClause()
+			if err != nil {
+				return err
+			}
+			cl.Assumed = true
+			cur.Ensures = append(cur.Ensures, cl)
+			ct.Assumed = append(ct.Assumed, fmt.Sprintf("%s: assumed (unchecked) postcondition of %s: %s", st.pos, cur.Name, cl.Src))
 		case "requires", "ensures", "invariant":
 			if cur == nil {
 				return fail("%s outside contract", kw)
@@ -358,6 +384,11 @@ func (p *Program) parsePure(pkg *packages.Package, text string, uninterp bool) (
 		sig = text[:idx]
 		body = strings.TrimSpace(text[idx+3:])
 	}
+	readsTxt := ""
+	if i := strings.Index(sig, " reads "); i >= 0 {
+		readsTxt = strings.TrimSpace(sig[i+7:])
+		sig = sig[:i]
+	}
 	e, err := parser.ParseExpr("func " + sig[strings.Index(sig, "("):] + "{}")
 	if err != nil {
 		return nil, fmt.Errorf("cannot parse signature %q: %v", sig, err)
@@ -381,6 +412,13 @@ func (p *Program) parsePure(pkg *packages.Package, text string, uninterp bool) (
 		return nil, err
 	}
 	pf.Ret = rt
+	if readsTxt != "" {
+		e, err := parser.ParseExpr("f(" + readsTxt + ")")
+		if err != nil {
+			return nil, fmt.Errorf("cannot parse reads %q: %v", readsTxt, err)
+		}
+		pf.Reads = e.(*ast.CallExpr).Args
+	}
 	if !uninterp {
 		b, err := parser.ParseExpr(desugar(body))
 		if err != nil {
